@@ -10,6 +10,7 @@ spans, and a catalogue of parser-built linear systems x the option lattice again
 import itertools
 
 import numpy as np
+import pandas as pd
 
 import fsic
 from fsic.extensions import AliasMixin, TracerMixin
@@ -264,6 +265,12 @@ def run_traces(block, tier, acc, cls=scripted.Scripted, extra_kwargs=None, post=
 def run_offset_case(case):
     n, t, offset, route = case['n'], case['t'], case['offset'], case.get('route', 'solve_t')
     span = ['p%d' % i for i in range(n)] if route == 'solve_period' else list(range(n))
+    if case.get('labels') == 'np':
+        span = np.arange(2000, 2000 + n)           # a NumPy-array span: labels located by the fallback search
+    elif case.get('labels') == 'np_str':
+        span = np.array(['p%d' % i for i in range(n)])
+    elif case.get('labels') == 'pd':
+        span = pd.period_range('2000', periods=n, freq='Y')
     pos = t + n if t < 0 else t
     m = scripted.make_scripted(span, {pos: [('conv', 0), ('conv', 0)]})
     for i, name in enumerate(m.names):
@@ -274,7 +281,12 @@ def run_offset_case(case):
         # the same request spelled with NumPy scalars (what indexing an integer array yields) is the same request
         t, offset = np.int64(t), np.int32(offset)
     if route == 'solve_period':
-        res, cause, _ = refsolve.call_outcome(m.solve_period, span[pos], tol=scripted.TOL, offset=offset)
+        label = span[pos]
+        if case.get('labels') == 'np':
+            label = int(label)
+        elif case.get('labels') == 'np_str':
+            label = str(label)
+        res, cause, _ = refsolve.call_outcome(m.solve_period, label, tol=scripted.TOL, offset=offset)
     else:
         res, cause, _ = refsolve.call_outcome(m.solve_t, t, tol=scripted.TOL, offset=offset)
     out = []
@@ -327,6 +339,13 @@ def run_offsets(acc, tier):
                 acc.nontrivial += 1
                 for key, exp, obs, what in run_offset_case(case):
                     acc.violation(key, case, exp, obs, what)
+                if route == 'solve_period':
+                    for labels in ('np', 'np_str', 'pd'):
+                        case4 = dict(case, labels=labels)
+                        acc.evaluations += 1
+                        acc.nontrivial += 1
+                        for key, exp, obs, what in run_offset_case(case4):
+                            acc.violation(key + ':span-' + labels, case4, exp, obs, what)
                 case3 = dict(case, numpy_args=True)
                 acc.evaluations += 1
                 acc.nontrivial += 1
